@@ -47,10 +47,10 @@ RECURSIVE Pow(_, _)
 Pow(b, e) == IF e = 0 THEN 1 ELSE b * Pow(b, e - 1)
 
 \* rational symmetric K, Gaussian rho / sqrt(rho) / P of a lattice point
-KOf(n, kx) == [i \in 1..n |-> [j \in 1..n |-> KVals[kx[TriIdx(n, Min(i, j), Max(i, j))]]]]
-RhoOf(n, rx) == [i \in 1..n |-> RhoVals[rx[i]]]
-SqOf(n, rx) == [i \in 1..n |-> SqVals[rx[i]]]
-POf(n, px) == [i \in 1..n |-> PEntries[((px + i - 2) % NP) + 1]]
+KOf(n, kx) == Mk(n, n, LAMBDA i, j : KVals[kx[TriIdx(n, Min(i, j), Max(i, j))]])
+RhoOf(n, rx) == MkV(n, LAMBDA i : RhoVals[rx[i]])
+SqOf(n, rx) == MkV(n, LAMBDA i : SqVals[rx[i]])
+POf(n, px) == MkV(n, LAMBDA i : PEntries[((px + i - 2) % NP) + 1])
 AboveThreshold(n, rx) == \A i \in 1..n : rx[i] <= NRho
 
 LatticeSize(n) == Pow(NK, Tri(n)) * Pow(NRho, n)        \* the property's domain (real positive rho)
